@@ -72,6 +72,8 @@ func vpH_c14_payload() {
 	r := "r" + vpStr(1, "a-c")
 	x := vpStr(1, "a-c")
 
+	// the pipeline variable's name may start with a word the package itself mentions (reserved-looking prefixes)
+	pn := vpStrConstLike("*", "^[A-Z][A-Z_]*_$", "") + "P"
 	mk := func() vpWorld {
 		return vpWorld{
 			step: &pipeline.CommandStep{
@@ -79,7 +81,7 @@ func vpH_c14_payload() {
 				Env:     map[string]string{"A": ev, "B": "b"},
 				Plugins: pipeline.Plugins{{Source: "p#v1", Config: map[string]any{"k": cv, "l": []any{1, "s"}}}},
 			},
-			penv: map[string]string{"P": pv, "Q": "q"},
+			penv: map[string]string{pn: pv, "Q": "q"},
 			repo: r,
 			alg:  "EdDSA",
 		}
@@ -131,7 +133,7 @@ func vpH_c14_payload() {
 	case 0: // same content, other insertion orders
 		w2.step.Env = map[string]string{"B": "b", "A": ev}
 		w2.step.Plugins[0].Config = map[string]any{"l": []any{1, "s"}, "k": cv}
-		w2.penv = map[string]string{"Q": "q", "P": pv}
+		w2.penv = map[string]string{"Q": "q", pn: pv}
 	case 1: // nil versus empty containers
 		w1.step.Env, w2.step.Env = nil, map[string]string{}
 		w1.step.Plugins, w2.step.Plugins = nil, pipeline.Plugins{}
@@ -161,7 +163,7 @@ func vpH_c14_payload() {
 		w2.alg = "ES512"
 	case 11: // pipeline env value differs
 		vpAssume(x != pv)
-		w2.penv["P"] = x
+		w2.penv[pn] = x
 	case 12: // boundary shift between adjacent fields: command | repository
 		w1.step.Command, w1.repo = c+x, r
 		w2.step.Command, w2.repo = c, x+r
@@ -189,11 +191,11 @@ func vpH_c14_payload() {
 		w2.step.Matrix = &pipeline.Matrix{Setup: pipeline.MatrixSetup{"a": {"1"}, "b": {"2"}}, Adjustments: pipeline.MatrixAdjustments{{With: pipeline.MatrixAdjustmentWith{"a": "q", "b": x}}}}
 		vpAssume(x != "q")
 	case 21: // a pipeline variable with an empty value versus no such variable
-		w1.penv = map[string]string{"P": pv, "E": ""}
-		w2.penv = map[string]string{"P": pv}
+		w1.penv = map[string]string{pn: pv, "E": ""}
+		w2.penv = map[string]string{pn: pv}
 	case 17: // boundary shift between two pipeline env entries
-		w1.penv = map[string]string{"P": pv + x, "Q": "q"}
-		w2.penv = map[string]string{"P": pv, "Q": x + "q"}
+		w1.penv = map[string]string{pn: pv + x, "Q": "q"}
+		w2.penv = map[string]string{pn: pv, "Q": x + "q"}
 	}
 	p1, sig1 := vpSignPayload(w1)
 	p2 := vpPayloadOf(w2)
